@@ -4,6 +4,7 @@
      Traces[tid][l>1] = [t |-> "q", q, res]       one Project.search / complete_search call
                       | [t |-> "s", q, gn, res]   Script.search on one buffer and its get_names
    Every event is judged against the Reference operators of Search.tla (Why / WhyScript);
+   the verdict of a trace lists <<event index, failing clause>> for every rejected call;
    the Design operators are not used here.  Text = code-point sequences; JSON arrays
    arrive as sequences and are turned into the sets the Reference works on.            *)
 EXTENDS Naturals, Sequences, FiniteSets, TLC, Json, IOUtils
@@ -13,23 +14,28 @@ VARIABLES dirs, files, gi
 INSTANCE Search
 
 Traces == JsonDeserialize(IOEnv.TRACE_FILE)
-VARIABLES tid, l, T, R
+VARIABLES tid, l, T, R, bad
 
 TreeOf(h) == [dirs  |-> Range(h.dirs),
               files |-> { [path |-> f.path, defs |-> f.defs, uses |-> Range(f.uses)] : f \in Range(h.files) },
               gi    |-> Range(h.gi)]
 
-TInit == /\ tid \in 1..Len(Traces) /\ l = 2
+TInit == /\ tid \in 1..Len(Traces) /\ l = 2 /\ bad = {}
          /\ T = TreeOf(Traces[tid][1]) /\ R = RefCtx(TreeOf(Traces[tid][1]))
          /\ dirs = {} /\ files = {} /\ gi = {}
 Ev == Traces[tid][l]
 EvWhy(ev) == IF ev.t = "q" THEN Why(T, R, ev.q, Range(ev.res), Traces[tid][1].plimit)
              ELSE WhyScript(ev.gn, ev.q, ev.res)
+\* every event is judged (a rejected call does not hide the calls after it); bad collects
+\* <<index of the event, failing clause / shape>>
 TNext == /\ l <= Len(Traces[tid])
-         /\ (EvWhy(Ev) = {}) = TRUE
+         /\ bad' = bad \cup { <<l, s>> : s \in EvWhy(Ev) }
          /\ l' = l + 1
          /\ UNCHANGED <<tid, T, R, dirs, files, gi>>
-Verdict ==
-  IF l = Len(Traces[tid]) + 1 THEN PrintT(<<"ACCEPT", tid>>)
-  ELSE (EvWhy(Ev) = {}) \/ PrintT(<<"REJECT", tid, l, EvWhy(Ev)>>)
+Min(S) == CHOOSE x \in S : \A y \in S : x <= y
+TVerdict ==
+  IF l = Len(Traces[tid]) + 1
+  THEN (IF bad = {} THEN PrintT(<<"ACCEPT", tid>>)
+        ELSE PrintT(<<"REJECT", tid, Min({b[1] : b \in bad}), ToJson(bad)>>))   \* one line, whatever its size
+  ELSE TRUE
 =============================================================================
